@@ -42,8 +42,8 @@ def run(ctx):
                 "consecutive batches concatenated) equals that of write-all-then-drain, nothing lost or duplicated, and the "
                 "final bit position (plus the freed multiples of 64) is the same. non-trivial = at least one cut strictly "
                 "inside the file")
-    small = D.make_files(ctx, 14 if ctx.quick else 60, small=True)
-    medium = D.make_files(ctx, 10 if ctx.quick else 60)
+    small = D.make_files(ctx, 30 if ctx.quick else 120, small=True)
+    medium = D.make_files(ctx, 25 if ctx.quick else 120)
     lines, info = [], []
     def add(f, limit, cuts, free_after=()):
         lines.append(schedule_line(f, limit, cuts, free_after))
